@@ -49,6 +49,8 @@ Section TriaFunc.
   (* adj = triangles the adjacency was built from; ts = current triangles (vertex areas use current v, t) *)
   Definition smooth_vfunc (n : nat) (v : V) (ts adj : list tri) (k : nat) (cols : list (list K)) : result (list (list K)) :=
     if existsb (fun c => negb (Nat.eqb (length c) n)) cols then Err ValueError
+    (* adj.multiply(areas): vertex_areas has max-index+1 entries; a shorter vector is an "inconsistent shapes" ValueError *)
+    else if negb (Nat.eqb (S (maxn (tri_flat ts))) n) then Err ValueError
     else Ok (map (smooth_col (vertex_areas o v ts) adj n k) cols).
   Definition cols_of (v : V) : list (list K) := [map (vx (K:=K)) v; map (vy (K:=K)) v; map (vz (K:=K)) v].
   Definition v_of_cols (c : list (list K)) : V :=
